@@ -5,6 +5,7 @@ import os
 import z3
 
 from pyvc.vals import Val, NONE, S, B, I, K, LAT, TYP, sub, SeqV, Str, AVV, AVB, BASE, fresh, truthy, num, is_num, St, Unsupported, is_exc
+from specs.util import accumulator, carried_ints, names_in
 from pyvc.engine import Exec, Bound
 from pyvc import engine as _eng
 from pyvc.repo import Repo
@@ -619,8 +620,8 @@ class IterKeysSpec(FacadeSpec):
         return None
 
     def loop(self, ex, st, n, itv):
-        if not isinstance(n, ast.For):
-            return None
+        if not isinstance(n, ast.For) or ex.spine(st, itv) is not None or not isinstance(n.target, ast.Name):
+            return None                   # a loop over a concrete sequence (not the bucket listing) is unrolled by the engine
         objs = fresh('objects_under_prefix', SeqV); st.g['objs'] = objs
         loopseq = objs
         if ex.is_kind(st, itv, 'islice'):
@@ -646,6 +647,9 @@ class IterKeysSpec(FacadeSpec):
             s.assume(REL(z3.Concat(done, z3.Unit(x))) == z3.If(relevant(s, x), z3.Concat(REL(done), z3.Unit(k)), REL(done)))
             s.g['ybase'] = len(s.g.get('yielded', []))
 
+        ci = carried_ints(st, n)
+        cname = ci[0] if len(ci) == 1 else ('count' if 'count' in ci else None)          # the running counter, by role (the one loop-carried int)
+
         def ykeys(s):
             sq = s.g['ykeys']
             for y in s.g.get('yielded', [])[s.g['ybase']:]:
@@ -654,7 +658,7 @@ class IterKeysSpec(FacadeSpec):
 
         def inv(s, done):
             # stated over the yielded keys (the abstraction); a running counter of the code, if there is one, must agree with it
-            c = s.lookup('count')
+            c = s.lookup(cname) if cname else None
             base = z3.And(ykeys(s) == REL(done), z3.Or(lim == NONE, z3.Length(REL(done)) <= Val.iv(lim)))
             return base if c is None else z3.And(base, Val.is_i(c), Val.iv(c) == z3.Length(REL(done)))
 
@@ -662,7 +666,7 @@ class IterKeysSpec(FacadeSpec):
             s.g['ykeys'] = fresh('ykeys', SeqV); s.g['ybase'] = len(s.g.get('yielded', []))
         st.g['ykeys'] = z3.Empty(SeqV); st.g['ybase'] = len(st.g.get('yielded', [])); st.g['ykeys_fn'] = ykeys
         st.assume(REL(z3.Empty(SeqV)) == z3.Empty(SeqV))
-        return dict(seq=loopseq, bind=bind, havoc=[n.target.id, 'count', 'is_relevant'], havoc_state=havoc_state, inv=inv, name='loop.objects')
+        return dict(seq=loopseq, bind=bind, havoc=[n.target.id], havoc_state=havoc_state, inv=inv, name='loop.objects')
 
 
 def facade_iter_keys(props=None):
@@ -751,21 +755,34 @@ def s3_iter_recording_ids(props=None):
     its0 = fresh('day_iterators', SeqV)
 
     def c_days(ex_, s, args, kw, node_, star, dstar):
-        o = s.new_seq(its0); s.g['days_args'] = list(args[1:]); return [(s, ('val', o))]
+        o = s.new_seq(its0); s.g['days_args'] = list(args[1:]); s.g['days_list'] = o; return [(s, ('val', o))]
     ex.contracts['S3TapeCassette._get_days_iterators'] = c_days
 
     def loop(ex_, s0, n, itv):
         if not isinstance(n, ast.While):
             return None
-        lst = s0.lookup('days_iterators')
+        # locals by role, not by name: the live-iterator list is the object _get_days_iterators returned; the yield counter is the loop-carried
+        # int the loop guard reads; the invariant is stated over the GHOST number of ids yielded so far, which that counter must equal
+        lst = s0.g['days_list']
+        carried = carried_ints(s0, n)
+        guard = [v for v in carried if v in names_in(n.test)]
+        cname = guard[0] if len(guard) == 1 else ('count' if 'count' in carried else None)
+        s0.g['ycount0'] = z3.IntVal(0); s0.g['ybase'] = len(s0.g['yielded'])
+
+        def ny(s):
+            return s.g['ycount0'] + len(s.g['yielded'][s.g['ybase']:])
 
         def havoc_state(s):
             s.set_seq(lst, fresh('live_iterators', SeqV)); s.g['time'] = fresh('time', z3.IntSort()); s.g['ybase'] = len(s.g['yielded']); s.g['nbase'] = len(s.g.get('nexts', []))
-            s.g['rbase'] = len(s.g.get('removed', []))
+            s.g['rbase'] = len(s.g.get('removed', [])); s.g['ycount0'] = fresh('yielded_so_far', z3.IntSort())
 
         def inv(s):
-            cnt = s.lookup('count'); ii = s.lookup('iter_index')
-            return z3.And(Val.is_i(cnt), Val.iv(cnt) >= 0, Val.is_i(ii), Val.iv(ii) >= 0, z3.Or(lim == NONE, Val.iv(cnt) <= Val.iv(lim)))
+            parts = [s.g['ycount0'] >= 0, z3.Or(lim == NONE, ny(s) <= Val.iv(lim))]
+            parts += [Val.is_i(s.lookup(v)) for v in carried]
+            if cname:
+                parts.append(Val.iv(s.lookup(cname)) == ny(s))
+            return z3.And(*parts)
+        s0.g['ny'] = ny
 
         def per_iteration(s):
             ys = s.g['yielded'][s.g['ybase']:]; nx = s.g.get('nexts', [])[s.g.get('nbase', 0):]; rm = s.g.get('removed', [])[s.g.get('rbase', 0):]
@@ -777,7 +794,7 @@ def s3_iter_recording_ids(props=None):
                 else:
                     cl.append(('an_exhausted_iterator_is_removed_and_nothing_is_yielded', z3.And(z3.BoolVal(len(ys) == 0 and len(rm) == 1), rm[0] == it) if len(rm) == 1 else z3.BoolVal(False)))
             return cl
-        return dict(havoc=['count', 'iter_index', 'random_day_iterator', 'key', 'recording_id', 'result'], havoc_state=havoc_state, inv=inv, per_iteration=per_iteration, name='loop.round_robin')
+        return dict(havoc=[], havoc_state=havoc_state, inv=inv, per_iteration=per_iteration, name='loop.round_robin')
     spec.loop = loop
     paths = ex.block(node.body, st); obl = []; U = 'S3TapeCassette.iter_recording_ids'; P = ('C10', 'C16')
     obl += [Obl('C10/%s/%s' % (U, a), P, s_, c_, oc_) for a, s_, c_, oc_ in ex.obligations]
@@ -788,9 +805,8 @@ def s3_iter_recording_ids(props=None):
         obl.append(Obl('C10/%s/day_iterators_built_from_the_callers_arguments' % U, P, s,
                        z3.And(z3.BoolVal(len(da) == 6), *[a == fr[k_] for a, k_ in zip(da, ['category', 'start_date', 'end_date', 'metadata', 'limit', 'random_results'])]) if len(da) == 6 else z3.BoolVal(False), oc))
         if s.g.get('loop_exit_by_guard'):
-            cnt = s.lookup('count'); lst = s.lookup('days_iterators')
             obl.append(Obl('C10/%s/stops_only_at_the_limit_or_when_every_iterator_was_removed' % U, P, s,
-                           z3.Or(z3.And(lim != NONE, cnt == lim), z3.Length(s.seq(lst)) == 0), oc))
+                           z3.Or(z3.And(lim != NONE, s.g['ny'](s) == Val.iv(lim)), z3.Length(s.seq(s.g['days_list'])) == 0), oc))
         obl.append(Obl('C15/%s/never_mutates_the_bucket' % U, ('C15', 'C10'), s, z3.BoolVal(len(s.g['blog']) == 0), oc))
     return [info], obl, {'paths': len(paths), 'forks': ex.forks}
 
